@@ -14,7 +14,7 @@ BUILTIN_FUNCS = {
     "takewhile", "reversed", "heappush", "heappop", "SortedDict", "ExitStack", "WeakSet", "islice",
     # spec-only
     "old", "implies", "iff", "ite", "forall", "exists", "at", "typeof", "dead", "live", "unchanged",
-    "seq_eq", "fresh_obj", "allocated", "is_instance_exact", "last_yield", "store", "anything", "real", "whole",
+    "seq_eq", "fresh_obj", "allocated", "is_instance_exact", "last_yield", "store", "anything", "real", "whole", "bound_method",
 }
 
 
